@@ -113,6 +113,10 @@ def make_rule(prop: str):
                     continue
                 ref = mt[qn]
                 nf += 1
+                if ref.get("digest") == normalize.digest(fi.node):
+                    continue        # unchanged
+                if ctx.function_status(fi.where) == "rewritten":
+                    continue        # a rewritten function is not comparable clause by clause
                 now_q = normalize.quantifier_sites(fi.node)
                 for q, neg, arg in ref.get("quants", []):
                     if (mod, qn, arg) in NOT_REFERENCE:
@@ -496,9 +500,15 @@ def make_t2(prop: str):
                 what = {"expression": f"`{old}` became `{new}`", "operator": f"operator {old} became {new}", "token": f"`{old}` became `{new}`",
                         "early-exit-added": f"new early exit `{new}`", "statement-deleted": f"`{old}` was removed",
                         "made-conditional": f"`{old}` now runs only if `{new}`"}[kind]
-                ctx.ob(fi.where, f"{qn} ({'/'.join(sorted(set(sources)))} of {prop}) is still the form confirmed on the reference tree: it differs by a small edit of the kind "
-                       "that changes behaviour (operator / bound / constant / variable / lost statement / new shortcut), not by a refactoring", False, what[:200],
-                       key=f"{prop}-T2|{kind}|{mod}|{qn}|{old[:40]}|{new[:40]}")
+                text = (f"{qn} ({'/'.join(sorted(set(sources)))} of {prop}) differs from the form confirmed on the reference tree by a small edit "
+                        f"(operator / bound / constant / variable / lost statement / new shortcut): {what[:200]}")
+                if os.environ.get("BNPSA_T2_VERDICT") == "1":
+                    ctx.ob(fi.where, text, False, what[:200], key=f"{prop}-T2|{kind}|{mod}|{qn}|{old[:40]}|{new[:40]}", definite=True)
+                else:
+                    # an observation, not a verdict: a small edit of a mechanism function changes behaviour, but whether the property survives it is what the
+                    # site rules decide; it is printed (NOTE) and recorded in the evidence so that a reviewer sees every such edit
+                    ctx.note(f"{prop}-T2 {fi.where}: {text}")
+                    ctx.count("small edits of mechanism functions (observations)")
         ctx.count("mechanism functions compared with their confirmed form", n)
         ctx.count("mechanism functions that changed by a small edit", changed)
         ctx.floor("mechanism functions of the property present in the tree", n, 8)
